@@ -45,9 +45,9 @@ ASSUMPTIONS = [
     'individuals handed out by sample_individual_map_with_replacement are read as (id, first position, last position), '
     'which is how biogeme hands the map to the engine',
 ]
-MIN_DISTINCT = {'quick': 500, 'thorough': 12000}
+MIN_DISTINCT = {'quick': 500, 'thorough': 8000}
 CASE_TIMEOUT = 120
-N_RANDOM = {'quick': 1200, 'thorough': 30000}
+N_RANDOM = {'quick': 1200, 'thorough': 20000}
 
 
 # ---------------------------------------------------------------------------
@@ -390,7 +390,8 @@ def run_case(case):
                 return False
             e = real_expression(d)
             ops = exprs.ops_in(d['ast'], d.get('shared') or [])
-            mon.EXPECT['values'] = {'ref': [float(x) for x in ref], 'tol': _tol(ops), 'column': d.get('name') if op != 'values' else None}
+            mon.EXPECT['values'] = {'ref': [float(x) for x in ref], 'tol': _tol(ops), 'column': d.get('name') if op != 'values' else None,
+                                    'expression_id': id(e) if op == 'values' else None}
             if op == 'values':
                 call(op, lambda: D.values_from_database(e))
                 rec.ev()
@@ -578,7 +579,7 @@ def run_case(case):
 OPS = ['remove', 'add_column', 'define_variable', 'values', 'scale_column', 'panel', 'split', 'sample', 'sample_map', 'extract_rows',
        'flat', 'count', 'dump']
 MONITORS = ['remove', 'remove_with_reference_condition', 'add_column', 'add_column_with_reference_values', 'define_variable',
-            'values_from_database', 'scale_column', 'split', 'split_with_groups', 'sample_with_replacement',
+            'values_from_database', 'values_from_database_with_reference_values', 'scale_column', 'split', 'split_with_groups', 'sample_with_replacement',
             'sample_individual_map_with_replacement', 'extract_rows', 'generate_flat_panel_dataframe', 'count', 'panel']
 
 
